@@ -73,6 +73,7 @@ func main() {
 	partA(e)
 	partAWitnesses(e)
 	partA6(e)
+	partA7(e)
 	partB(e)
 	partC(e)
 	partD(e)
@@ -215,6 +216,39 @@ func partA6(e *env) {
 	n0, n1 := s.nodes[0], s.nodes[1]
 	run.Count(fmt.Sprintf("A6 p0-lib=%s(%d) p1-lib=%s(%d) conflict=%v", nameOf(n0.maxLib.b), n0.maxLib.no, nameOf(n1.maxLib.b), n1.maxLib.no,
 		n0.maxLib.b != nil && n1.maxLib.b != nil && !n0.maxLib.b.isAncestorOf(n1.maxLib.b) && !n1.maxLib.b.isAncestorOf(n0.maxLib.b)))
+}
+
+// A7 (observation, counted only — reported to the lead): receivers never validate the Confirms field. ONE producer lying in it
+// (p3 claims every block back to number 1 with each of its blocks) makes blocks irreversible together with ONE honest producer:
+// n = 4, only p0 (honest Confirms) and p3 ever produce; after 7 blocks the node reports LIB 4 although only 2 of 4 producers have
+// ever produced a block. With honest Confirms (A7h) the same schedule never moves the LIB. No property oracle here (nd.fault).
+func partA7(e *env) {
+	run := e.run
+	for _, lying := range []bool{true, false} {
+		w := e.world(run.Rng.Fork(), seqN(4))
+		nd := newNode(w, 1, e.realStore(w), &recorder{run: run})
+		nd.fault = true
+		parent := w.gblk
+		lpb := map[int]uint64{}
+		producers := map[int]bool{}
+		for i := 0; i < 9; i++ {
+			p := []int{0, 3}[i%2]
+			no := parent.no + 1
+			c := no - lpb[p]
+			if lying && p == 3 {
+				c = no
+			}
+			b := w.mkBlock(parent, p, c)
+			lpb[p] = no
+			producers[p] = true
+			nd.arrive(b)
+			parent = b
+		}
+		nd.enter()
+		d := nd.dump()
+		nd.leave()
+		run.Count(fmt.Sprintf("A7 lying-confirms=%v final-lib=%d distinct-producers-ever=%d of 4 (3 needed)", lying, d.Lib.No, len(producers)))
+	}
 }
 
 // scriptedHistory: the concrete histories of lean/Aergo/Props/C08.lean (the `*_false` witnesses), on the real code.
